@@ -376,7 +376,15 @@ class Gen:
             for anc in (spec.get("anchors") or []):
                 body_txt = s[it.body_open:it.end]
                 pos, startp = -1, 0
-                for _ in range(anc.get("nth", 0) + 1):
+                if anc.get("after_re"):
+                    # anchor given as a regular expression (tolerates renamed operands); `after` is set to the matched text
+                    ms = list(re.finditer(anc["after_re"], body_txt))
+                    if len(ms) <= anc.get("nth", 0):
+                        raise GenError(f"{key}: lost anchor /{anc['after_re']}/")
+                    anc = dict(anc, after=ms[anc.get("nth", 0)].group(0))
+                    pos = ms[anc.get("nth", 0)].start()
+                else:
+                  for _ in range(anc.get("nth", 0) + 1):
                     pos = body_txt.find(anc["after"], startp)
                     if pos < 0:
                         raise GenError(f"{key}: lost anchor {anc['after']!r}")
